@@ -254,8 +254,9 @@ func limitsCase(name string, root *rootSpec, o wopts, cfg *recgen.Cfg, p genPara
 		nontrivial = true
 		stats["dict-limit-restarts"] += limitRestarts
 	}
-	// enforced: lower bound of dictionary growth
-	if !optDict && o.dictSize != 0 {
+	// enforced: lower bound of dictionary growth, on the run with F unlimited AND on the run as
+	// configured (a record may reach the frame limit and the dictionary limit in the same Write)
+	enforced := func(which string, fs []frameInfo) {
 		epoch := map[string]bool{}
 		prev := map[string]string{}
 		// a field that still holds its initial value in the first record is not encoded at all (the
@@ -274,7 +275,7 @@ func limitsCase(name string, root *rootSpec, o wopts, cfg *recgen.Cfg, p genPara
 		}
 		bytesLB := 0
 		rec := 0
-		for fi, f := range fB {
+		for fi, f := range fs {
 			if f.flags&byte(pkg.RestartDictionaries) != 0 {
 				epoch = map[string]bool{}
 				bytesLB = 0
@@ -325,13 +326,20 @@ func limitsCase(name string, root *rootSpec, o wopts, cfg *recgen.Cfg, p genPara
 					lastOfFrame := k == f.nrec-1
 					lastOverall := rec == len(res.truths)
 					if !lastOverall {
-						if !lastOfFrame || fB[fi+1].flags&byte(pkg.RestartDictionaries) == 0 {
-							fail("dict-limit-not-enforced", "after record %d at least %d dictionary bytes were added since the last reset (L=%d) but no RestartDictionaries frame follows", rec-1, bytesLB, o.dictSize)
+						if !lastOfFrame || fs[fi+1].flags&byte(pkg.RestartDictionaries) == 0 {
+							fail("dict-limit-not-enforced", "%s: after record %d at least %d dictionary bytes were added since the last reset (L=%d) but no RestartDictionaries frame follows", which, rec-1, bytesLB, o.dictSize)
 						}
 					}
 					bytesLB = 0 // avoid cascades; the epoch restarts with the next frame anyway
 				}
 			}
+		}
+
+	}
+	if !optDict && o.dictSize != 0 {
+		enforced("with F unlimited", fB)
+		if o.frameSize != 0 {
+			enforced("with F as configured", frames)
 		}
 	}
 
